@@ -31,6 +31,7 @@ type exprContext struct {
 	contextPosition  int
 	contextSize      int
 	principal        principalNodeType
+	reverseAxis      bool
 	builtinFunctions map[XmlName]Function
 	ContextSettings
 }
